@@ -12,7 +12,7 @@ import Thanos.Model.Shipper
           steps  = <proc>:<k>;…             proc ∈ up ship rep del mark nocomp ; k = crash budget | x
         answer: <status>[<mutating calls>] … => <listing>       (grammar in harness/cmd/block/c28.go)
 
-  C31   dd.filter <metas>        metas = <id>:<group>:<src>,<src>,…;…   (sources `-` = none)
+  C31   dd.filter <metas>        metas = <id>:<group>:<level>:<src>,<src>,…;…   (sources `-` = none)
         answer: kept=<ids ascending> dups=<ids ascending>
 
   C32   c32.ret <nowMs> <rets> <blocks>       rets = <res>:<durMs>:<shift>,…   blocks = <id>:<res>:<maxTimeMs>:<shift>;…
@@ -111,11 +111,12 @@ def sortNats (xs : List Nat) : List Nat := xs.foldr insertNat []
 
 def parseMeta (t : String) : Option DedupFilter.Meta :=
   match splitChar ':' t with
-  | [i, g, srcs] => do
+  | [i, g, lv, srcs] => do
     let i ← parseNat? i
     let g ← parseNat? g
+    let lv ← parseNat? lv
     let ss ← parseNats? ',' srcs
-    pure ⟨i, g, ss⟩
+    pure ⟨i, g, lv, ss⟩
   | _ => none
 
 def ddFilter (metas : String) : String :=
